@@ -98,6 +98,7 @@ class H:
         self.nfresh = 0
         self.callables: dict[str, Any] = {}
         self.bg_tg: Any = None
+        self.leaked: dict[str, list] = {}
         self.probe_every = bool(plan.get("probe_every"))
 
     # ---- identity helpers
@@ -175,14 +176,28 @@ class H:
                     sim.log("body_end", ctx=cid, how="return", exc=None, closed=ctx.closed)
         except BaseException as e:
             sim.log("ctx_exit", ctx=cid, exc=describe(e), closed=ctx.closed, cur=self.cur(), exp=outer)
+            if cid in self.leaked:
+                sim.log("leak_exit", ctx=cid, reported=_mentions_corruption(e), exc=describe(e))
+                await self._close_leaked(cid)
             if b.get("post_ops"):
                 await self.ops(b["post_ops"], cid)
             if contains_cancel(e) or not b.get("catch", True) or sim.aborting:
                 raise
         else:
             sim.log("ctx_exit", ctx=cid, exc=None, closed=ctx.closed, cur=self.cur(), exp=outer)
+            if cid in self.leaked:
+                sim.log("leak_exit", ctx=cid, reported=False, exc=None)
+                await self._close_leaked(cid)
             if b.get("post_ops"):
                 await self.ops(b["post_ops"], cid)
+
+    async def _close_leaked(self, cid: str) -> None:
+        for c in reversed(self.leaked.pop(cid, [])):
+            with CancelScope(shield=True):
+                try:
+                    await c.__aexit__(None, None, None)
+                except BaseException as e:  # noqa: BLE001
+                    self.sim.log("note", what="leaked_child_exit", exc=describe(e))
 
     async def run_block_exitstack(self, b: dict, exp: str | None) -> None:
         """The context is managed by an AsyncExitStack whose *later* exit callback raises:
@@ -254,7 +269,7 @@ class H:
 
     async def branch(self, br: dict, exp: str | None) -> None:
         self.at(exp, "branch_start")
-        corrupting = any(a[0] == "corrupt" for a in br.get("body", ()))
+        corrupting = any(a[0] == "corrupt" for a in br.get("body", ())) or br.get("name") == "leak"
         try:
             await self.acts(br.get("body", ()), exp)
         finally:
@@ -470,6 +485,14 @@ class H:
             elif op == "child":
                 # a context created (and entered) while the current one is being torn down
                 await self.run_block(s[1], cid)
+            elif op == "leak_child":
+                # a child entered during the parent's teardown and still open when the parent
+                # has been left: must be reported like any other open child
+                c = Context()
+                self.know(c, s[1]["cid"])
+                await c.__aenter__()
+                self.leaked.setdefault(cid, []).append(c)
+                sim.log("leak_child", parent=cid, child=s[1]["cid"], child_parent=self.cid(c.parent))
             elif op == "raise":
                 e = self.tag.make(s[1])
                 sim.log("raise", where="cb", cb=spec["id"], exc=describe(e))
@@ -1006,6 +1029,14 @@ def oracle(sim: Sim, plan: dict) -> list[dict]:
                     v("C13.allowed", key, f"{op} on {c} in state {state} gave {res}, expected {want_res}")
                 if op == "add_resource" and res == "ok" and d.get("visible") is not True:
                     v("C13.effect", key, f"resource added to {c} in state {state} is not visible")
+        elif kind == "leak_exit":
+            if not d["reported"]:
+                root_failing = ctx_ev.get(d["ctx"], {}).get("ctx_new", (0, 0, 0, 0, 0, {}))[5].get("parent") is None and d["exc"] is not None
+                v(
+                    "C13.corruption",
+                    "silent_teardown_child" if not root_failing else "silent_root_failing_exit",
+                    f"context {d['ctx']} was left while a child entered during its teardown was still open; observed {d['exc']}, the open child was not reported",
+                )
         elif kind == "corrupt_exit":
             if not d["reported"]:
                 key = "silent"
@@ -1345,6 +1376,28 @@ def gen_c13(g: G) -> dict:
                 ],
             ]
         )
+    if rng.random() < 0.2:
+        g.nctx += 2
+        g.ncb += 1
+        leak_block = {
+            "id": f"x{g.nctx - 1}",
+            "parent": "implicit",
+            "catch": True,
+            "end": {"how": "return"},
+            "body": [
+                [
+                    "reg",
+                    {
+                        "id": f"c{g.ncb}",
+                        "route": "ctx",
+                        "kind": "async",
+                        "pexc": False,
+                        "body": [rpause(rng), ["leak_child", {"cid": f"x{g.nctx}"}]],
+                    },
+                ]
+            ],
+        }
+        root["body"].append(["par", [{"name": "leak", "body": [["child", leak_block]]}]])
     out: dict[str, Any] = {"root": root}
     if rng.random() < 0.15:
         g.nctx += 2
